@@ -220,6 +220,76 @@ func init() {
 		w.ext["fixrandom"] = args[0].(*Term)
 		return nil
 	})
+	reg("verifnd.Settle", func(w *World, t *Thread, fr *frame, fn *ssa.Function, args []Value) Value {
+		// wait until every other thread is finished or blocked
+		cond := func() bool {
+			for _, o := range w.threads {
+				if o == t || o.done {
+					continue
+				}
+				if o.waitCond == nil || o.waitCond() {
+					return false
+				}
+			}
+			return true
+		}
+		w.block(t, "Settle", cond)
+		return nil
+	})
+	reg("verifnd.HTTPPosts", func(w *World, t *Thread, fr *frame, fn *ssa.Function, args []Value) Value {
+		n := 0
+		if v, ok := w.ext["httpposts"]; ok {
+			n = len(v.([]Value))
+		}
+		return w.tt.BV(64, uint64(n))
+	})
+	reg("verifnd.HTTPPostBody", func(w *World, t *Thread, fr *frame, fn *ssa.Function, args []Value) Value {
+		i := int(w.concreteInt(fr, args[0], "index"))
+		if v, ok := w.ext["httpposts"]; ok && i < len(v.([]Value)) {
+			return v.([]Value)[i]
+		}
+		return []Value(nil)
+	})
+	reg("net/http.Post", func(w *World, t *Thread, fr *frame, fn *ssa.Function, args []Value) Value {
+		// record the body (read through the reader's Read)
+		body := args[2].(Iface)
+		var content Value = []Value(nil)
+		if body.t != nil {
+			if m := w.lookupMethod(body.t, nil, "Len"); m != nil {
+				// bytes.Reader: take the underlying slice
+				if p, ok := body.v.(*Value); ok && p != nil {
+					if st, ok := (*p).(Struct); ok && len(st) > 0 {
+						if bs, ok := st[0].([]Value); ok {
+							content = bs
+						}
+					}
+				}
+			}
+		}
+		var l []Value
+		if v, ok := w.ext["httpposts"]; ok {
+			l = v.([]Value)
+		}
+		w.ext["httpposts"] = append(l[:len(l):len(l)], content)
+		rt := fn.Signature.Results().At(0).Type()
+		if w.decideBool(w.freshND("http-post-fails", "bool", 0), "http.Post") {
+			return Tuple{(*Value)(nil), w.mkError("Post: connection refused")}
+		}
+		cell := new(Value)
+		*cell = w.zero(deref(rt))
+		st := deref(rt).Underlying().(*types.Struct)
+		s := (*cell).(Struct)
+		s[fieldIndex(st, "StatusCode")] = w.freshND("http-status", "i64", 64)
+		// Body: http.NoBody
+		if pkg := w.prog.ImportedPackage("net/http"); pkg != nil {
+			if g, ok := pkg.Members["NoBody"].(*ssa.Global); ok {
+				nb := pkg.Type("noBody").Object().Type()
+				_ = g
+				s[fieldIndex(st, "Body")] = Iface{t: nb, v: Struct{}}
+			}
+		}
+		return Tuple{cell, w.nilError()}
+	})
 	reg("verifnd.Thorough", func(w *World, t *Thread, fr *frame, fn *ssa.Function, args []Value) Value {
 		return w.tt.Bool(currentTier == "thorough")
 	})
